@@ -33,7 +33,7 @@ def check(env, rep, tier):
     rep.configs = configs
     for cfg in configs:
         prog = env.prog(cfg)
-        serve = blockutil.fns_calling(prog, "core::slice::<impl [T]>::chunks")
+        serve = blockutil.find_serve(prog)
         if len(serve) != 1:
             rep.missing("C08.2", "the (unique) function serving a chunk of the cached body (found %d)" % len(serve))
             continue
@@ -59,7 +59,7 @@ def check(env, rep, tier):
             pl = pkt.fields[tr.P["payload"]] if isinstance(pkt, StructV) else None
             if not (isinstance(pl, VecV) and pl.len == tr.resp_payload0.len):
                 ok1 = False
-            if s.ghost.get("last_more") != 1:
+            if blockutil.last_more(s) != 1:
                 ok2 = False
         rep.ob("C08.1", "snapshot-before-truncation", ok1,
                "the reply stored in the per-key cache does not have the full body the application produced (cloned after the payload was cut to one block?)", site,
@@ -71,7 +71,7 @@ def check(env, rep, tier):
             ret = tr.ret_kind(rv)
             if "cache:Some" in marks and ret != {"true"}:
                 okr = False
-            if "served" in marks and s.ghost.get("last_more") == 1 and "cache:Some" not in marks and "err" not in ret:
+            if "served" in marks and blockutil.last_more(s) == 1 and "cache:Some" not in marks and "err" not in ret:
                 okr = False
         rep.ob("C08.2", "response-return", okr, "intercept_response: a path that fragments the reply does not cache it and return Ok(true)", site)
         # ------------------------------------------------ request side
@@ -100,7 +100,7 @@ def check(env, rep, tier):
                 if "false" in ret or "?" in ret:
                     ok3 = False
                 if "err" not in ret:
-                    more = s.ghost.get("last_more")
+                    more = blockutil.last_more(s)
                     if more == 0 and "cache:None" not in marks:
                         ok4 = False
                     if more == 1 and "cache:None" in marks:
@@ -142,7 +142,7 @@ def check(env, rep, tier):
             if "block-undecodable" in marks:
                 continue
             n7 += 1
-            if "served" not in marks:
+            if "serve-called" not in marks:
                 bad7 += 1
         for s, rv in tr2.res:
             if s.ghost.get("has_Block2") is True and "err" not in tr2.ret_kind(rv) and not s.ghost.get(("inj", "block-undecodable")):
@@ -384,10 +384,19 @@ def check_served_chunk(prog, rep, serve):
                     mv = more.aff.c
                 elif more.cond is not None:
                     mv = 1 if holds(s, more.cond, True) else 0 if holds(s, more.cond, False) else None
-            if mv is None:
+            if mv is None and isinstance(more, IntV):
+                # the flag is computed as a value, not branched on: it must be equivalent to (num+1) x size < len
+                from absdom import assume
+                cnd = more.cond if more.cond is not None else ("cmp", "Ne", more.aff, Aff.const(0))
+                ok_t = all(x.dead or x.entails(L - off - size - 1) for x in assume(s.copy(), cnd, True))
+                ok_f = all(x.dead or x.entails(off + size - L) for x in assume(s.copy(), cnd, False))
+                if not (ok_t and ok_f):
+                    bad.append("the more flag written is not equivalent to (num+1) x size < len")
+                    continue
+            elif mv is None:
                 bad.append("the more flag written is not determined by the path")
                 continue
-            if mv == 1 and not s.entails(L - off - size - 1) or mv == 0 and not s.entails(off + size - L):
+            elif mv == 1 and not s.entails(L - off - size - 1) or mv == 0 and not s.entails(off + size - L):
                 bad.append("more = %d is written although (num+1) x size %s len is not established" % (mv, "<" if mv else ">="))
                 continue
             if not (isinstance(w.fields[ni], IntV) and w.fields[ni].aff == num.aff and w.fields[zi] == bv.fields[zi]):
